@@ -362,3 +362,10 @@ func vFileContent(b *bufferedFile) uint64 { return 0 }
 func vFSCorruptFile(path string) bool { return false }
 func vTimerFor(site string, mode int) {}
 func vLastTimerDuration() time.Duration { return 0 }
+
+// vVolatile: natively the cell keeps its value (replay of a counterexample that depends on another
+// goroutine's store between two loads is engine-only).
+func vVolatile(p *int32) {}
+
+// vIOCopyN: the native io.Copy moves real bytes; the harnesses that use this are engine-only.
+func vIOCopyN(k int) int64 { return -1 }
